@@ -30,6 +30,11 @@ type Expression interface {
 type expression struct {
 	nodeEvaluator  NodeEvaluator
 	executionState ExecutionState
+
+	// lambdaNode is the source node of the expression, kept only if it contains
+	// lambda expressions: those hold their state in the compiled evaluator,
+	// so a copy of the expression needs its own evaluator.
+	lambdaNode ast.Node
 }
 
 // NewExpression accept a node and try to "compile"/ "specialise" it
@@ -45,17 +50,49 @@ func NewExpression(node ast.Node) (Expression, error) {
 		return nil, err
 	}
 
-	return &expression{
+	e := &expression{
 		nodeEvaluator:  nodeEvaluator,
 		executionState: CreateExecutionState(),
-	}, nil
+	}
+	if containsLambda(node) {
+		e.lambdaNode = node
+	}
+	return e, nil
 }
 
 func (se *expression) CopyReset() Expression {
-	return &expression{
-		nodeEvaluator:  se.nodeEvaluator,
-		executionState: CreateExecutionState(),
+	nodeEvaluator := se.nodeEvaluator
+	if se.lambdaNode != nil {
+		// The state of the stateful functions inside of a lambda expression lives in its evaluator,
+		// compile a new one so that the copy does not share that state.
+		if ne, err := createNodeEvaluator(se.lambdaNode); err == nil {
+			nodeEvaluator = ne
+		}
 	}
+	return &expression{
+		nodeEvaluator:  nodeEvaluator,
+		executionState: CreateExecutionState(),
+		lambdaNode:     se.lambdaNode,
+	}
+}
+
+// containsLambda reports whether a lambda expression is nested somewhere below the node.
+func containsLambda(node ast.Node) bool {
+	switch n := node.(type) {
+	case *ast.LambdaNode:
+		return true
+	case *ast.UnaryNode:
+		return containsLambda(n.Node)
+	case *ast.BinaryNode:
+		return containsLambda(n.Left) || containsLambda(n.Right)
+	case *ast.FunctionNode:
+		for _, arg := range n.Args {
+			if containsLambda(arg) {
+				return true
+			}
+		}
+	}
+	return false
 }
 
 func (se *expression) Reset() {
